@@ -190,18 +190,22 @@ def validate_trace(module, cfg, trace, tmp, max_rejections=8, timeout=900):
     segs = _segments(lines)
     result = {'executions': len(segs), 'accepted': 0, 'rejections': [], 'states': 0, 'lines': len(lines)}
     k = 0
+    CHUNK = 400   # executions per TLC run: a thorough-tier trace of thousands of executions does not fit one JVM heap
     while k < len(segs):
+        hi = min(k + CHUNK, len(segs))          # this run validates executions k .. hi-1
         part = os.path.join(tmp, 'part.%d.ndjson' % k)
         with open(part, 'w') as f:
-            f.write('\n'.join(lines[segs[k][0]:]) + '\n')
+            f.write('\n'.join(lines[segs[k][0]:segs[hi - 1][1]]) + '\n')
         r = tlc_trace_once(module, cfg, part, tmp, timeout=timeout)
+        os.unlink(part)
         result['states'] += r['distinct']
         if r['accepted']:
-            result['accepted'] += len(segs) - k
-            break
+            result['accepted'] += hi - k
+            k = hi
+            continue
         # locate the execution containing the first unmatched line (1-based line maxl of part)
         bad_line = segs[k][0] + (r['maxl'] or 1) - 1
-        j = max(i for i in range(k, len(segs)) if segs[i][0] <= min(bad_line, len(lines) - 1))
+        j = max(i for i in range(k, hi) if segs[i][0] <= min(bad_line, len(lines) - 1))
         result['accepted'] += j - k
         rej = {'first_unmatched': lines[bad_line] if bad_line < len(lines) else '<end of trace>',
                'last_matched': lines[bad_line - 1] if 0 < bad_line <= len(lines) else '',
